@@ -1,261 +1,444 @@
 """C07  Re-rooting and re-orienting never change the underlying unrooted tree.
 
-Monitors: hooks on the nine operations (outermost call only).  pre-snapshot = spec of the
-tree (raw child lists), leaf multiset, unrooted split set, total length, all leaf-to-leaf
-path lengths, rooting flag, and for reroot_at_edge the distances from both ends of the
-edge to every leaf.  post (on return) recomputes from the live tree and judges:
+Monitors: hooks on the nine Tree operations and on the two legacy aliases in dendropy.legacy.treemanip
+(outermost call only).  pre-snapshot = spec of the tree (raw child lists, taxa identified by a key stamped on the
+Taxon object, never by label), its unrooted profile (see _c07_util: taxa, leaves, splits, total length, all
+taxon-to-taxon path lengths; a missing length counts as 0 - the documented Tree.length() convention), rooting
+flag (True / False / None), and for reroot_at_edge the side and distance of every taxon from both ends of the
+edge.  post (on return) recomputes from the live tree and judges:
 
-  leafset           leaf-taxon multiset unchanged
+  leafset           taxon multiset, leaf (degree <= 1) taxon multiset, number of taxon-less tips unchanged
+                    (a taxon-less unary root is such a tip; suppression may remove it)
   splits            unrooted split set unchanged
-  total-length      sum of non-root edge lengths unchanged        } only when every non-root edge
-  path-lengths      every leaf-to-leaf path length unchanged      } had a length before the call
+  total-length      sum of all lengths (root edge included, missing = 0) unchanged; for reroot_at_edge it changes by
+                    exactly (length1 or 0) + (length2 or 0) - (edge length or 0)
+  path-lengths      every taxon-to-taxon path length unchanged; for reroot_at_edge the paths across the edge change
+                    by that same amount, the others not at all
   flag              soft ops keep the rooting flag; hard ops (reroot_at_node/edge/midpoint) set rooted
+  requested-node    reseed_at / reroot_at_node: the requested node, if it is still in the tree, is the seed node
   midpoint          some pair of most distant leaves lies on opposite sides of the root at equal distance
-  edge-placement    reroot_at_edge: root at length2 from old head side leaves, length1 from the others
-  outgroup-first    to_outgroup_position: outgroup node is root's first child (parent had >= 2 children)
+  root-on-edge      reroot_at_edge: one child clade of the new root is exactly the clade below the requested edge
+  edge-placement    reroot_at_edge: root at length2 from the old head side taxa, at length1 from the others
+                    (each side judged when that length was given)
+  outgroup-first    to_outgroup_position: outgroup node (or, when it was a suppressed unifurcation, its clade) is the
+                    root's first child (judged unless the outgroup's parent is a unary root, which suppression removes)
 
-Soundness limits: reseed_at / reroot_at_node only get internal targets (docstring: "takes an
-internal node"); reroot_at_edge only internal edges, and the invariance of lengths is judged only
-if length1 + length2 equals the edge's length; midpoint only on trees with >= 2 leaves and all
-lengths present; the flag clause is judged for the operations whose documentation states it
-(reseed_at soft; reroot_* hard) and for rotate/ladderize/reorder (which are not rootings at all);
-for to_outgroup_position / randomly_reorient it is recorded only.  An exception is a violation
-(the operations document no error for admissible arguments)."""
+Soundness limits: reseed_at / reroot_at_node at a LEAF (docstring: "takes an internal node") are driven and fully
+judged when suppress_unifurcations is False (the drawing is re-hung, nothing is contracted); with
+suppress_unifurcations=True the library contracts the pendant edge of that leaf by design, so only the clauses that
+this design must still satisfy are judged (no exception, well-formed, flag, every other taxon present, paths among
+the other taxa unchanged) and what happens to the target leaf is recorded as a note.  reroot_at_edge gets internal
+and terminal edges.  Midpoint only on trees with >= 2 leaves, a taxon on every leaf and all non-root lengths present
+(the midpoint of a path is undefined otherwise).  The flag clause is judged for the operations whose documentation
+states it (reseed_at soft; reroot_* hard) and for rotate/ladderize/reorder (which are not rootings at all); for
+to_outgroup_position / randomly_reorient (documented neither as soft nor as hard) it is recorded only.  The contents
+of bipartition_encoding after update_bipartitions=True are not part of this property (C03 judges staleness).
+An exception is a violation (the operations document no error for admissible arguments)."""
+import inspect
 import random
+import warnings
 
 from .. import ref, gen, bridge, core
 from ..mon.hooks import Hooks
 from ..mon import arbor
+from . import _c07_util as U
 
 PROP = "C07"
-LEVEL_TEXT = 'The nine operations are hooked; a pre-snapshot (leaf set, unrooted splits, total length, all leaf-to-leaf paths, flag, distances from both ends of the target edge) is compared with the post-call tree. All shapes with <= 4/5 leaves x every target x flag settings x nine length patterns (unit/integer/ultrametric patterns put the midpoint on a node) as workload, random larger trees beyond.'
-LEVEL_NOTE = 'Trusted: vf/ref.py path/splits oracles; exact arithmetic on integer/dyadic lengths, 1e-9 relative on floats.'
+LEVEL_TEXT = ('The nine operations and the two legacy aliases are hooked; a pre-snapshot (taxa, leaf set, unrooted splits, total length with '
+              'missing = 0 and the root edge included, all taxon-to-taxon paths, flag, side and distance of every taxon from both ends of the '
+              'target edge) is compared with the post-call tree. All shapes with <= 4/5 leaves x every target (internal and leaf nodes, '
+              'internal and terminal edges, every outgroup) x flag settings x three rooting states (rooted/unrooted/undefined) x nine length '
+              'patterns (unit/integer/ultrametric patterns put the midpoint on a node) x root-edge length (none/0/positive) as workload, '
+              'random larger trees beyond; default-argument calls, rng=None, legacy aliases, re-used (pre-encoded, repeatedly re-rooted) '
+              'trees and unusual taxon labels are sampled.')
+LEVEL_NOTE = 'Trusted: vf/ref.py traversal + props/_c07_util.py path/splits oracles; exact arithmetic on integer/dyadic lengths, 1e-9 relative to the summed magnitude on floats.'
 LEVEL = "exploration"
-TECHNIQUE = "runtime monitoring: pre/post hooks on the 9 re-rooting operations + reference-model oracle (splits, path lengths) on generated trees"
-RULE = ("cases = tree shape (all shapes n<=5, random larger) x rooting flag x length pattern x operation x every target "
-        "(node/edge/outgroup) x flag settings; non-trivial = tree has >= 3 leaves and the operation is not applied at the "
-        "current root; distinct = (canonical tree with lengths, rooting, op, target, flags)")
+TECHNIQUE = ("runtime monitoring: pre/post hooks on the 9 re-rooting operations and 2 legacy aliases + reference-model oracle "
+             "(unrooted splits, path lengths, total length) on generated trees")
+RULE = ("cases = tree shape (all shapes n<=5, random larger) x rooting state (True/False/None) x length pattern x root-edge length "
+        "x operation x every target (internal node, leaf node, internal edge, terminal edge, outgroup) x flag settings, plus per case: "
+        "default-argument calls, rng=None, legacy aliases, a history of three operations on one (possibly pre-encoded) tree, and a "
+        "sampled taxon-label class (plain / None / empty / duplicate / non-ASCII / taxon-less leaf / unused taxa in the namespace); "
+        "non-trivial = tree has >= 3 leaves and the operation is not applied at the current root; "
+        "distinct = (canonical tree with lengths, rooting, op, target, flags, route)")
 REACH = ["_tree:Tree.reseed_at", "_tree:Tree.reroot_at_node", "_tree:Tree.reroot_at_edge", "_tree:Tree.reroot_at_midpoint",
          "_tree:Tree.to_outgroup_position", "_tree:Tree.randomly_reorient", "_tree:Tree.randomly_rotate",
          "_tree:Tree.ladderize", "_tree:Tree.reorder", "_edge:Edge.invert", "_tree:Tree.collapse_basal_bifurcation",
-         "_tree:Tree.suppress_unifurcations"]
+         "_tree:Tree.suppress_unifurcations", "_tree:Tree.encode_bipartitions",
+         "treemanip:randomly_reorient_tree", "treemanip:randomly_rotate"]
 MIN_EVENTS = {"post:invariance-judged": (2000, 100000), "post:midpoint-judged": (200, 5000),
               "post:edge-placement-judged": (200, 5000), "post:outgroup-judged": (200, 5000),
-              "midpoint-on-node-cases": (20, 500)}
+              "midpoint-on-node-cases": (20, 500),
+              # deciding monitors of the input classes / clauses added after the audit (about 40-50% of clean runs)
+              "post:root-on-edge-judged": (60000, 100000), "post:terminal-edge-placement-judged": (25000, 38000),
+              "post:edge-length-replaced-judged": (35000, 50000), "post:requested-node-judged": (75000, 130000),
+              "post:leaf-target-fully-judged": (16000, 24000), "post:leaf-target-weakly-judged": (16000, 24000),
+              "post:legacy-route-judged": (1700, 3500), "post:missing-lengths-judged": (38000, 70000),
+              "post:root-edge-length-judged": (100000, 190000), "post:undefined-rooting-judged": (65000, 110000),
+              "post:phase:defaults": (16000, 33000), "post:phase:history": (5000, 10000),
+              "label-class:label-None": (70, 150), "label-class:label-empty": (70, 150), "label-class:label-duplicate": (70, 150),
+              "label-class:label-non-ascii": (70, 150), "label-class:taxonless-leaf": (70, 150), "label-class:unused-taxa": (70, 150)}
 ASSUMPTIONS = ["reference splits / path lengths come from a DendroPy-free spec extracted from raw child lists before and after each call",
-               "float comparisons: exact for integer/dyadic lengths, 1e-9 relative otherwise"]
+               "a missing edge length counts as 0 (documented Tree.length() convention); the root's own edge length is part of the total length",
+               "float comparisons: exact for integer/dyadic lengths, 1e-9 relative to the summed magnitude otherwise",
+               "re-seeding at a leaf with suppress_unifurcations=True is outside the documented domain ('takes an internal node'): judged on the weaker clauses only"]
 
 OPS = ("reseed_at", "reroot_at_node", "reroot_at_edge", "reroot_at_midpoint", "to_outgroup_position",
        "randomly_reorient", "randomly_rotate", "ladderize", "reorder")
+LEGACY = {"randomly_reorient_tree": "randomly_reorient", "randomly_rotate": "randomly_rotate"}
 HARD = ("reroot_at_node", "reroot_at_edge", "reroot_at_midpoint")
 FLAG_JUDGED_SOFT = ("reseed_at", "randomly_rotate", "ladderize", "reorder")
 PATTERNS = ("unit", "ints", "zeros", "dyadic", "float", "ultrametric", "equal", "none", "mixed_missing")
-
-
-def close(a, b, scale=1.0):
-    if a == b:
-        return True
-    return abs(a - b) <= 1e-9 * max(1.0, abs(a), abs(b), abs(scale))
-
-
-def undirected_dists(spec, start):
-    """distance from spec node ``start`` to every node (ids), edges as undirected."""
-    adj = {}
-    for n in ref.preorder(spec):
-        for c in n[3]:
-            w = c[2] or 0
-            adj.setdefault(id(n), []).append((c, w))
-            adj.setdefault(id(c), []).append((n, w))
-    dist = {id(start): 0}
-    stack = [start]
-    while stack:
-        n = stack.pop()
-        for m, w in adj.get(id(n), []):
-            if id(m) not in dist:
-                dist[id(m)] = dist[id(n)] + w
-                stack.append(m)
-    return dist
+ROOTINGS = (True, False, None)
+LABEL_CLASSES = ("label-None", "label-empty", "label-duplicate", "label-non-ascii", "taxonless-leaf", "unused-taxa")
+# flip to judge reseed_at / reroot_at_node at a leaf with suppress_unifurcations=True like any other target
+# (the library then fails: the leaf's pendant length, or the leaf itself, is dropped)
+JUDGE_CONTRACTING_LEAF_TARGET = False
 
 
 class Monitor(object):
-    """pre/post hooks for the nine operations; reusable by other workloads."""
+    """pre/post hooks for the nine operations and the legacy aliases; reusable by other workloads."""
 
     def __init__(self, ctx):
         self.ctx = ctx
+        self.exact = False      # set by the driver: the workload is integral / dyadic -> compare exactly
+        self.phase = None       # set by the driver: which part of the workload issues the calls
+        self.last_exc = None    # the last exception a hook has seen (and reported)
 
     def install(self, hooks):
         import dendropy
+        from dendropy.legacy import treemanip
         for op in OPS:
-            hooks.install(dendropy.Tree, op, pre=self._mk_pre(op), post=self._mk_post(op))
+            sig = inspect.signature(inspect.getattr_static(dendropy.Tree, op))
+            hooks.install(dendropy.Tree, op, pre=self._mk_pre(op, op, sig), post=self._mk_post(op, op))
+        for fn, sem in LEGACY.items():
+            name = "legacy.%s" % fn
+            sig = inspect.signature(getattr(treemanip, fn))
+            hooks.install(treemanip, fn, pre=self._mk_pre(name, sem, sig), post=self._mk_post(name, sem))
 
     # ------------------------------------------------------------------
-    def _mk_pre(self, op):
-        def pre(tree, args, kw):
+    @staticmethod
+    def _split(obj, args, kw):
+        """(tree, remaining positional args) for methods and for module functions f(tree, ...)."""
+        if obj is not None:
+            return obj, args
+        if args:
+            return args[0], args[1:]
+        return kw.get("tree"), args
+
+    def _mk_pre(self, name, sem, sig):
+        def pre(obj, args, kw):
+            tree, rest = self._split(obj, args, kw)
             try:
-                spec, nodes = bridge.extract(tree, with_nodes=True)
+                spec, nodes = U.extract(tree, with_nodes=True)
             except bridge.ExtractError:
                 return None
-            snap = {"op": op, "spec": spec, "flag": tree._is_rooted,
-                    "leaves": sorted(ref.leaf_taxa(spec)),
-                    "splits": ref.unrooted_splits(spec),
-                    "all_lengths": ref.has_all_lengths(spec),
-                    "newick": ref.to_newick(spec), "kw": dict((k, v) for k, v in kw.items() if k != "rng")}
-            if snap["all_lengths"]:
-                snap["total"] = ref.total_length(spec, include_root_edge=True)
-                snap["paths"] = dict((k, v[0]) for k, v in ref.leaf_paths(spec).items())
+            try:
+                bound = sig.bind(*((obj,) + tuple(args) if obj is not None else tuple(args)), **kw)
+                bound.apply_defaults()
+                arg = dict(bound.arguments)
+            except TypeError:
+                arg = None      # the call itself will raise
+            prof = U.profile(spec)
+            snap = {"name": name, "sem": sem, "spec": spec, "flag": tree._is_rooted, "prof": prof,
+                    "newick": ref.to_newick(spec), "arg": arg, "tags": [],
+                    "call": dict((k, v) for k, v in (arg or kw).items()
+                                 if isinstance(v, (bool, int, float, type(None))) and k != "rng")}
+            if arg is None:
+                return snap
             live2spec = dict((id(nd), s) for s, nd in nodes)
-            if op == "reroot_at_edge":
-                edge = args[0] if args else kw.get("edge")
-                l1 = args[1] if len(args) > 1 else kw.get("length1")
-                l2 = args[2] if len(args) > 2 else kw.get("length2")
+            below = U.taxa_below(spec)
+            if sem == "reroot_at_edge":
+                edge = arg.get("edge")
+                l1, l2 = arg.get("length1"), arg.get("length2")
                 head = live2spec.get(id(edge._head_node))
                 tail = live2spec.get(id(edge.tail_node)) if edge.tail_node is not None else None
                 if head is not None and tail is not None:
-                    below = set(n[0] for n in ref.leaves(head) if n[0] is not None)
-                    dh = undirected_dists(spec, head)
-                    dt = undirected_dists(spec, tail)
-                    leafd = {}
-                    for lf in ref.leaves(spec):
-                        if lf[0] is None:
-                            continue
-                        leafd[lf[0]] = ("head", dh[id(lf)]) if lf[0] in below else ("tail", dt[id(lf)])
-                    snap["edge"] = {"l1": l1, "l2": l2, "len": head[2], "leafd": leafd,
-                                    "desc": "edge above clade %s" % sorted(below)}
-            if op == "to_outgroup_position":
-                og = args[0] if args else kw.get("outgroup_node")
+                    hb = below[id(head)]
+                    dh = U.undirected_dists(spec, head)
+                    dt = U.undirected_dists(spec, tail)
+                    side = {}
+                    for n in ref.preorder(spec):
+                        if n[0] is not None:
+                            side[n[0]] = ("head", dh[id(n)]) if n[0] in hb else ("tail", dt[id(n)])
+                    snap["edge"] = {"l1": l1, "l2": l2, "len": head[2], "side": side, "below": hb,
+                                    "terminal": not head[3], "desc": "edge above clade %s" % sorted(hb)}
+                    if not head[3]:
+                        snap["tags"].append("terminal-edge")
+            if sem == "to_outgroup_position":
+                og = arg.get("outgroup_node")
                 snap["og"] = og
                 p = og._parent_node
                 snap["og_parent_outdegree"] = len(p._child_nodes) if p is not None else 0
+                snap["og_parent_is_root"] = p is not None and p._parent_node is None
                 s = live2spec.get(id(og))
-                snap["og_desc"] = sorted(n[0] for n in ref.leaves(s) if n[0] is not None) if s else None
-            if op in ("reseed_at", "reroot_at_node"):
-                nd = args[0] if args else kw.get("new_seed_node", kw.get("new_root_node"))
+                snap["og_desc"] = sorted(below[id(s)]) if s is not None else None
+            if sem in ("reseed_at", "reroot_at_node"):
+                nd = arg.get("new_seed_node", arg.get("new_root_node"))
                 s = live2spec.get(id(nd))
-                snap["target_desc"] = sorted(n[0] for n in ref.leaves(s) if n[0] is not None) if s else None
-                snap["target_is_leaf"] = not nd._child_nodes
+                snap["target"] = nd
+                snap["target_desc"] = sorted(below[id(s)]) if s is not None else None
+                is_leaf = s is not None and not s[3] and s is not spec
+                snap["target_is_leaf"] = is_leaf
+                if is_leaf:
+                    snap["tags"].append("leaf-target")
+                    snap["target_taxon"] = s[0]
+                    snap["contracting"] = bool(arg.get("suppress_unifurcations"))
+            if sem == "reorder":
+                labels = [getattr(nd.taxon, "label", None) for s, nd in nodes if getattr(nd, "taxon", None) is not None]
+                if any(x is None for x in labels):
+                    snap["tags"].append("taxon-label-None")
             return snap
         return pre
 
-    def _mk_post(self, op):
-        def post(snap, tree, args, kw, result, exc):
+    def _mk_post(self, name, sem):
+        def post(snap, obj, args, kw, result, exc):
             ctx = self.ctx
+            tree, rest = self._split(obj, args, kw)
+            if exc is not None:
+                self.last_exc = exc
             if snap is None:
+                # the tree was not walkable BEFORE the call (cyclic / shared nodes): nothing can be judged
+                ctx.note("pre-snapshot-impossible:%s" % name)
+                ctx.mark_inconclusive("%s: tree not extractable before the call" % name)
                 return
-            det = {"before": snap["newick"], "rooted_flag": snap["flag"], "kwargs": snap["kw"]}
+            det = {"before": snap["newick"], "rooted_flag": snap["flag"], "call": snap["call"]}
+            if self.phase:
+                det["phase"] = self.phase
             for k in ("target_desc", "og_desc"):
                 if snap.get(k) is not None:
                     det["target"] = snap[k]
             if "edge" in snap:
                 det["target"] = snap["edge"]["desc"]
-                det["length1"], det["length2"] = snap["edge"]["l1"], snap["edge"]["l2"]
+            tag = ("|" + "+".join(snap["tags"])) if snap["tags"] else ""
             if exc is not None:
                 if isinstance(exc, core.CaseTimeout):
                     return
-                ctx.unexpected(op, exc, det)
+                ctx.violation("%s|unexpected-exception|%s%s" % (name, core.exc_key(exc), tag),
+                              "%s raised %s" % (name, core.exc_brief(exc)), det)
                 return
             try:
-                spec = bridge.extract(tree)
+                spec, nodes = U.extract(tree, with_nodes=True)
             except bridge.ExtractError as e:
-                ctx.violation("%s|malformed-tree" % op, str(e), det)
+                ctx.violation("%s|malformed-tree%s" % (name, tag), str(e), det)
                 return
             probs = arbor.check(tree, iterators=False)
             if probs:
-                ctx.violation("%s|malformed-tree" % op, "; ".join(probs), det)
+                ctx.violation("%s|malformed-tree%s" % (name, tag), "; ".join(probs), det)
                 return
             det["after"] = ref.to_newick(spec)
-            judged_lengths = snap["all_lengths"]
-            if op == "reroot_at_edge" and "edge" in snap:
-                e = snap["edge"]
-                if e["l1"] is None or e["l2"] is None or e["len"] is None or not close(e["l1"] + e["l2"], e["len"]):
-                    judged_lengths = False
+            before = snap["prof"]
+            after = U.profile(spec)
             ctx.ev("post:invariance-judged")
-            if sorted(ref.leaf_taxa(spec)) != snap["leaves"]:
-                ctx.violation("%s|leafset-changed" % op, "leaf set changed", det)
-                return
-            if ref.unrooted_splits(spec) != snap["splits"]:
-                ctx.violation("%s|splits-changed" % op, "set of unrooted splits changed", det)
-                return
-            if judged_lengths:
-                tot = ref.total_length(spec, include_root_edge=True)
-                if not close(tot, snap["total"]):
-                    ctx.violation("%s|total-length-changed" % op, "total length %r -> %r" % (snap["total"], tot), det)
-                    return
-                paths = ref.leaf_paths(spec)
-                for k, v in snap["paths"].items():
-                    if not close(paths[k][0], v, snap["total"]):
-                        ctx.violation("%s|path-length-changed" % op,
-                                      "path %s-%s %r -> %r" % (k[0], k[1], v, paths[k][0]), det)
-                        return
+            if self.phase:
+                ctx.ev("post:phase:%s" % self.phase)
+            if name.startswith("legacy."):
+                ctx.ev("post:legacy-route-judged")
+            if snap["flag"] is None:
+                ctx.ev("post:undefined-rooting-judged")
+            weak = bool(snap.get("contracting")) and not JUDGE_CONTRACTING_LEAF_TARGET
+            if snap.get("target_is_leaf"):
+                ctx.ev("post:leaf-target-weakly-judged" if weak else "post:leaf-target-fully-judged")
+            if weak:
+                ok = self.judge_contracted_leaf_target(name, snap, before, after, det, tag)
+            else:
+                ok = self.judge_invariance(name, snap, before, after, det, tag)
             # ---- rooting flag
-            if op in HARD:
-                if tree._is_rooted is not True:
-                    ctx.violation("%s|flag-not-set-rooted" % op, "hard re-rooting left is_rooted=%r" % tree._is_rooted, det)
-            elif op in FLAG_JUDGED_SOFT:
-                if tree._is_rooted is not snap["flag"]:
-                    ctx.violation("%s|flag-changed" % op, "soft operation changed is_rooted %r -> %r" % (snap["flag"], tree._is_rooted), det)
-            elif tree._is_rooted is not snap["flag"]:
-                ctx.note("flag-changed-by-%s" % op)
-            # ---- operation specific clauses
-            if op == "reroot_at_midpoint" and snap["all_lengths"]:
-                self.judge_midpoint(spec, snap, det)
-            if op == "reroot_at_edge" and "edge" in snap:
-                self.judge_edge(spec, snap, det)
-            if op == "to_outgroup_position":
-                if snap["og_parent_outdegree"] >= 2:
-                    ctx.ev("post:outgroup-judged")
-                    # the outgroup *clade* must hang first under the root (the node itself may have been
-                    # a unifurcation that suppression replaced by its child)
-                    first = spec[3][0] if spec[3] else None
-                    first_clade = sorted(n[0] for n in ref.leaves(first) if n[0] is not None) if first else None
-                    if first is None or first_clade != snap["og_desc"]:
-                        ctx.violation("to_outgroup_position|outgroup-not-first-child", "outgroup is not the first child of the root", det)
+            fb, fa = snap["flag"], tree._is_rooted
+            trans = "|%s->%s" % (U.flagname(fb), U.flagname(fa)) if fb is None else ""
+            if sem in HARD:
+                if fa is not True:
+                    ctx.violation("%s|flag-not-set-rooted%s" % (name, trans), "hard re-rooting left is_rooted=%r (was %r)" % (fa, fb), det)
+            elif sem in FLAG_JUDGED_SOFT:
+                if fa is not fb:
+                    ctx.violation("%s|flag-changed%s" % (name, trans), "soft operation changed is_rooted %r -> %r" % (fb, fa), det)
+            elif fa is not fb:
+                ctx.note("flag-changed-by-%s|%s->%s" % (name, U.flagname(fb), U.flagname(fa)))
+            # ---- operation specific clauses (they presuppose the taxa of the snapshot: skipped after an invariance violation)
+            if not ok:
+                return
+            if sem in ("reseed_at", "reroot_at_node") and snap.get("target") is not None:
+                nd = snap["target"]
+                if any(x is nd for s, x in nodes):
+                    ctx.ev("post:requested-node-judged")
+                    if tree._seed_node is not nd:
+                        ctx.violation("%s|requested-node-is-not-the-seed%s" % (name, tag),
+                                      "the requested node is still in the tree but is not its seed node", det)
                 else:
-                    ctx.note("outgroup-with-unary-parent-placement-not-judged")
+                    ctx.note("requested-node-removed-by-suppression%s" % tag)
+            if sem == "reroot_at_midpoint":
+                if before["missing"] or before["bare_tips"] or before["taxa"] != before["leaves"] or len(before["leaves"]) < 2:
+                    ctx.note("midpoint-undefined-not-judged")
+                else:
+                    self.judge_midpoint(spec, after, det)
+            if sem == "reroot_at_edge" and "edge" in snap:
+                self.judge_edge(spec, snap, det, tag)
+            if sem == "to_outgroup_position":
+                self.judge_outgroup(tree, spec, nodes, snap, det)
         return post
 
-    def judge_midpoint(self, spec, snap, det):
+    # ------------------------------------------------------------------
+    def _length_tag(self, snap, tag):
+        t = list(snap["tags"])
+        if snap["prof"]["missing"]:
+            t.append("missing-lengths")
+        if snap["prof"]["root_length"]:
+            t.append("root-edge-length")
+        return ("|" + "+".join(t)) if t else ""
+
+    def judge_invariance(self, name, snap, before, after, det, tag):
+        ctx = self.ctx
+        # a taxon-less root with a single child is a (taxon-less) tip of the unrooted tree that suppression may remove
+        tips_ok = (after["bare_tips"] == before["bare_tips"] or
+                   (before["bare_unary_root"] and after["bare_tips"] == before["bare_tips"] - 1))
+        if after["taxa"] != before["taxa"] or after["leaves"] != before["leaves"] or not tips_ok:
+            ctx.violation("%s|leafset-changed%s" % (name, tag), "leaf set changed: taxa %s -> %s, leaves %s -> %s, taxon-less tips %d -> %d" % (
+                before["taxa"], after["taxa"], before["leaves"], after["leaves"], before["bare_tips"], after["bare_tips"]), det)
+            return False
+        if after["splits"] != before["splits"]:
+            ctx.violation("%s|splits-changed%s" % (name, tag), "set of unrooted splits changed", det)
+            return False
+        delta = 0
+        scale = before["scale"]
+        side = None
+        if "edge" in snap:
+            e = snap["edge"]
+            delta = (e["l1"] or 0) + (e["l2"] or 0) - (e["len"] or 0)
+            scale += abs(e["l1"] or 0) + abs(e["l2"] or 0)
+            side = e["side"]
+            det["length1"], det["length2"], det["edge_length"] = e["l1"], e["l2"], e["len"]
+            if delta:
+                ctx.ev("post:edge-length-replaced-judged")
+        if before["missing"]:
+            ctx.ev("post:missing-lengths-judged")
+        if before["root_length"]:
+            ctx.ev("post:root-edge-length-judged")
+        ltag = self._length_tag(snap, tag)
+        want = before["total"] + delta
+        if not U.close(after["total"], want, scale, self.exact):
+            ctx.violation("%s|total-length-changed%s" % (name, ltag), "total length %r -> %r%s" % (
+                before["total"], after["total"], (" (expected %r: the edge of length %r was replaced by %r + %r)" % (
+                    want, snap["edge"]["len"], snap["edge"]["l1"], snap["edge"]["l2"])) if "edge" in snap else ""), det)
+            return False
+        for k, v in before["dist"].items():
+            w = v + (delta if (side is not None and side[k[0]][0] != side[k[1]][0]) else 0)
+            if not U.close(after["dist"][k], w, scale, self.exact):
+                ctx.violation("%s|path-length-changed%s" % (name, ltag),
+                              "path %s-%s %r -> %r%s" % (k[0], k[1], v, after["dist"][k], (" (expected %r)" % w) if w != v else ""), det)
+                return False
+        return True
+
+    def judge_contracted_leaf_target(self, name, snap, before, after, det, tag):
+        """reseed_at / reroot_at_node at a leaf with suppress_unifurcations=True: the library contracts the pendant
+        edge of the target by design (documented domain: internal nodes).  Judged: every other taxon is still there,
+        no taxon appeared, the paths among the other taxa are unchanged."""
+        ctx = self.ctx
+        t = snap.get("target_taxon")
+        others_b = [x for x in before["taxa"] if x != t]
+        others_a = [x for x in after["taxa"] if x != t]
+        if others_a != others_b or after["taxa"].count(t) > before["taxa"].count(t):
+            ctx.violation("%s|leafset-changed%s" % (name, tag), "taxa other than the target leaf changed: %s -> %s" % (before["taxa"], after["taxa"]), det)
+            return False
+        if t is not None and t not in after["taxa"]:
+            ctx.note("leaf-target-with-suppression:target-leaf-removed-from-tree")
+        elif after["total"] != before["total"]:
+            ctx.note("leaf-target-with-suppression:pendant-edge-length-dropped")
+        scale = before["scale"]
+        for k, v in before["dist"].items():
+            if t in k:
+                continue
+            if not U.close(after["dist"][k], v, scale, self.exact):
+                ctx.violation("%s|path-length-changed%s" % (name, self._length_tag(snap, tag)),
+                              "path %s-%s (neither is the target leaf) %r -> %r" % (k[0], k[1], v, after["dist"][k]), det)
+                return False
+        return True
+
+    def judge_midpoint(self, spec, after, det):
         ctx = self.ctx
         ctx.ev("post:midpoint-judged")
-        paths = ref.leaf_paths(spec)
-        if not paths:
+        pairs = after["dist"]
+        if not pairs:
+            ctx.note("midpoint-no-pair-of-taxa-after-the-call")
             return
-        rd = dict((n[0], d) for n, d, k in ref.root_distances(spec) if not n[3] and n[0] is not None)
-        dmax = max(v[0] for v in paths.values())
-        tol = 1e-9 * max(1.0, dmax)
-        ok = False
-        for (x, y), v in paths.items():
-            if dmax - v[0] > tol:
+        rd = U.root_dists(spec)
+        dmax = max(pairs.values())
+        tol = 0 if self.exact else 1e-9 * dmax
+        for (x, y), v in pairs.items():
+            if dmax - v > tol:
                 continue
-            if abs(rd[x] + rd[y] - v[0]) <= tol and abs(rd[x] - rd[y]) <= tol:
-                ok = True
-                break
-        if not ok:
-            ctx.violation("reroot_at_midpoint|root-not-at-midpoint",
-                          "no pair of most distant leaves (distance %r) is equidistant from the root on opposite sides" % dmax, det)
+            if abs(rd[x] + rd[y] - v) <= tol and abs(rd[x] - rd[y]) <= tol:
+                return
+        ctx.violation("reroot_at_midpoint|root-not-at-midpoint",
+                      "no pair of most distant leaves (distance %r) is equidistant from the root on opposite sides" % dmax, det)
 
-    def judge_edge(self, spec, snap, det):
+    def judge_edge(self, spec, snap, det, tag):
         ctx = self.ctx
         e = snap["edge"]
-        if e["l1"] is None or e["l2"] is None or not snap["all_lengths"]:
-            ctx.note("reroot_at_edge-without-lengths-placement-not-judged")
+        full = frozenset(snap["prof"]["taxa"])
+        if e["below"] and e["below"] != full:
+            ctx.ev("post:root-on-edge-judged")
+            tb = U.taxa_below(spec)
+            if not any(tb[id(c)] == e["below"] for c in spec[3]):
+                ctx.violation("reroot_at_edge|root-not-on-requested-edge%s" % tag,
+                              "no child clade of the new root is the clade below the requested edge", det)
+                return
+        if e["l1"] is None and e["l2"] is None:
+            ctx.note("reroot_at_edge-without-lengths-distances-not-judged")
             return
         ctx.ev("post:edge-placement-judged")
-        rd = dict((n[0], d) for n, d, k in ref.root_distances(spec) if not n[3] and n[0] is not None)
-        for lf, (side, d) in e["leafd"].items():
-            want = d + (e["l2"] if side == "head" else e["l1"])
-            if not close(rd[lf], want, snap["total"]):
-                ctx.violation("reroot_at_edge|root-not-at-requested-distances",
-                              "leaf %s on the %s side is at %r from the root, expected %r" % (lf, side, rd[lf], want), det)
+        if e["terminal"]:
+            ctx.ev("post:terminal-edge-placement-judged")
+        rd = U.root_dists(spec)
+        scale = snap["prof"]["scale"] + abs(e["l1"] or 0) + abs(e["l2"] or 0)
+        for t, (side, d) in e["side"].items():
+            ln = e["l2"] if side == "head" else e["l1"]
+            if ln is None:
+                continue
+            want = d + ln
+            if t not in rd or not U.close(rd[t], want, scale, self.exact):
+                ctx.violation("reroot_at_edge|root-not-at-requested-distances%s" % tag,
+                              "taxon %s on the %s side is at %r from the root, expected %r" % (t, side, rd.get(t), want), det)
                 return
+
+    def judge_outgroup(self, tree, spec, nodes, snap, det):
+        ctx = self.ctx
+        if snap["og_parent_outdegree"] < 2 and snap["og_parent_is_root"]:
+            # the parent is a unary root: it becomes the new root and (with suppression) is removed again
+            ctx.note("outgroup-below-unary-root-placement-not-judged")
+            return
+        og = snap["og"]
+        kids = tree._seed_node._child_nodes
+        first_live = kids[0] if kids else None
+        if first_live is og:
+            ctx.ev("post:outgroup-judged")
+            return
+        # the node itself may have been a unifurcation that suppression replaced by its child: compare clades
+        if not snap["og_desc"]:
+            if any(x is og for s, x in nodes):
+                ctx.ev("post:outgroup-judged")
+                ctx.violation("to_outgroup_position|outgroup-not-first-child", "outgroup is not the first child of the root", det)
+            else:
+                ctx.note("outgroup-without-taxa-suppressed-placement-not-judged")
+            return
+        ctx.ev("post:outgroup-judged")
+        first = spec[3][0] if spec[3] else None
+        first_clade = sorted(U.taxa_below(first)[id(first)]) if first is not None else None
+        if first is None or first_clade != snap["og_desc"]:
+            ctx.violation("to_outgroup_position|outgroup-not-first-child", "outgroup is not the first child of the root", det)
 
 
 # ----------------------------------------------------------------------------------------
 DIRECTED = [
-    # (newick-like spec builder, rooted, op)   -- canonical witnesses of the known mechanisms
+    # canonical witnesses of the known mechanisms; "lengths": pattern name or the post-order list (root excluded)
     {"kind": "directed", "name": "midpoint-on-node-balanced", "shape": [[0, 1], [2, 3]], "lengths": "unit", "rooted": True},
     {"kind": "directed", "name": "midpoint-on-node-star", "shape": [0, 1, 2], "lengths": "unit", "rooted": True},
     {"kind": "directed", "name": "midpoint-on-node-uneven", "shape": [[0, 1], 2], "lengths": [1, 1, 2, 3], "rooted": True},
     {"kind": "directed", "name": "midpoint-on-node-balanced-unrooted", "shape": [[0, 1], [2, 3]], "lengths": "unit", "rooted": False},
+    {"kind": "directed", "name": "midpoint-on-node-balanced-undefined", "shape": [[0, 1], [2, 3]], "lengths": "unit", "rooted": None},
+    {"kind": "directed", "name": "root-edge-length", "shape": [[0, 1], [2, 3]], "lengths": "unit", "root_length": 5, "rooted": True},
+    {"kind": "directed", "name": "root-edge-length-unrooted", "shape": [[0, 1], [2, 3]], "lengths": "unit", "root_length": 5, "rooted": False},
+    {"kind": "directed", "name": "basal-collapse-kept-edge-unset", "shape": [[0, 1], [2, 3]], "lengths": [1, 1, None, 1, 1, 3], "rooted": False},
+    {"kind": "directed", "name": "basal-collapse-collapsed-edge-unset", "shape": [[0, 1], [2, 3]], "lengths": [1, 1, 3, 1, 1, None], "rooted": None},
 ]
 
 
@@ -263,20 +446,20 @@ def cases(tier, seed):
     for d in DIRECTED:
         yield dict(d, seed=seed)
     nmax = 4 if tier == "quick" else 5
-    for n in range(2, nmax + 1):
+    for n in range(1, nmax + 1):
         shapes = gen.all_shapes(n)
         for idx in range(len(shapes)):
-            for rooted in (True, False):
+            for ri, rooted in enumerate(ROOTINGS):
                 for pat in PATTERNS:
-                    if n == 5 and (idx + PATTERNS.index(pat) + seed) % 4 != 0:
+                    if n == 5 and (idx + PATTERNS.index(pat) + ri + seed) % 6 != 0:
                         continue
                     yield {"kind": "shape", "n": n, "idx": idx, "rooted": rooted, "pat": pat, "seed": seed}
     if tier == "quick":
         shapes = gen.all_shapes(5)
         for idx in range(len(shapes)):
             if (idx + seed) % 6 == 0:
-                yield {"kind": "shape", "n": 5, "idx": idx, "rooted": bool(idx % 2), "pat": PATTERNS[idx % len(PATTERNS)], "seed": seed}
-    nrand = 4000 if tier == "quick" else 12000
+                yield {"kind": "shape", "n": 5, "idx": idx, "rooted": ROOTINGS[idx % 3], "pat": PATTERNS[idx % len(PATTERNS)], "seed": seed}
+    nrand = 3000 if tier == "quick" else 6000
     for i in range(nrand):
         yield {"kind": "random", "i": i, "seed": seed}
 
@@ -286,134 +469,284 @@ def tuplify(x):
 
 
 def apply_pattern(spec, rng, pat):
+    """decorate spec with lengths; returns True when every length is integral or dyadic (exact arithmetic)."""
+    v = None
     if pat == "ultrametric":
-        gen.ultrametric_lengths(spec, rng, dyadic=rng.random() < 0.5)
+        exact = rng.random() < 0.5
+        gen.ultrametric_lengths(spec, rng, dyadic=exact)
     elif pat == "equal":
         v = rng.choice([0.5, 2, 0.1, 3.7])
+        exact = v in (0.5, 2)
         for n in ref.preorder(spec):
             n[2] = None if n is spec else v
     else:
         gen.decorate_lengths(spec, rng, pat)
-    return spec
+        exact = pat != "float"
+    # the root's own edge: no length / zero / positive (in the kind of the pattern)
+    mode = rng.choice(("none", "none", "zero", "pos", "pos"))
+    if mode == "zero":
+        spec[2] = 0
+    elif mode == "pos":
+        if pat == "unit":
+            spec[2] = 1
+        elif pat in ("ints", "zeros"):
+            spec[2] = rng.randint(1, 5)
+        elif pat == "equal":
+            spec[2] = v
+        elif pat == "float" or (pat == "ultrametric" and not exact):
+            spec[2] = rng.uniform(0.001, 3.0)
+        else:
+            spec[2] = rng.randint(1, 64) / 8.0
+    return exact
 
 
-def targets(tree):
-    nodes = list(tree.preorder_node_iter())
-    internal = [(i, nd) for i, nd in enumerate(nodes) if nd._child_nodes]
-    nonroot = [(i, nd) for i, nd in enumerate(nodes) if nd._parent_node is not None]
-    internal_edges = [(i, nd) for i, nd in nonroot if nd._child_nodes]
-    return nodes, internal, nonroot, internal_edges
+def label_class(spec, rng, klass):
+    """-> (spec', label_of, extra_taxa) for one of LABEL_CLASSES (taxon identity never depends on the label)."""
+    keys = sorted(ref.leaf_taxa(spec))
+    label_of, extra = None, 0
+    if klass == "label-None" and keys:
+        label_of = {rng.choice(keys): None}
+    elif klass == "label-empty" and keys:
+        label_of = {rng.choice(keys): ""}
+    elif klass == "label-duplicate" and len(keys) >= 2:
+        a, b = rng.sample(keys, 2)
+        label_of = {a: b}
+    elif klass == "label-non-ascii" and keys:
+        label_of = dict((k, gen.random_label(rng)) for k in keys if rng.random() < 0.6)
+    elif klass == "taxonless-leaf" and len(keys) >= 3:
+        spec = ref.copy(spec)
+        lf = rng.choice([n for n in ref.leaves(spec)])
+        lf[0] = None
+    elif klass == "unused-taxa":
+        extra = rng.randint(1, 3)
+    return spec, label_of, extra
 
 
-def fresh(spec, rooted):
-    import dendropy
-    labels = sorted(ref.leaf_taxa(spec))
-    ns = dendropy.TaxonNamespace(labels)
-    return bridge.build_tree(spec, ns, rooted)
+class Driver(object):
+    """applies the operations to fresh trees of one spec; every call goes through the hooks, which judge it."""
 
+    def __init__(self, ctx, mon, spec, rooted, rng, exhaustive, label_of=None, extra_taxa=0):
+        self.ctx, self.mon, self.spec, self.rooted, self.rng, self.exhaustive = ctx, mon, spec, rooted, rng, exhaustive
+        self.label_of, self.extra_taxa = label_of, extra_taxa
+        self.nleaves = len(ref.leaf_taxa(spec))
+        self.canon = ref.canon(spec)
 
-def run_ops_on(ctx, spec, rooted, rng, exhaustive, label):
-    """apply every operation with (all | sampled) targets and flag settings, each on a fresh tree."""
-    import dendropy
-    t0 = fresh(spec, rooted)
-    nodes, internal, nonroot, internal_edges = targets(t0)
-    nleaves = len(ref.leaf_taxa(spec))
-    all_lengths = ref.has_all_lengths(spec)
-    bools = (False, True)
+    def fresh(self):
+        return U.build(self.spec, self.rooted, self.label_of, self.extra_taxa)
 
-    def pick(seq, k):
+    def pick(self, seq, k):
         seq = list(seq)
-        if exhaustive or len(seq) <= k:
+        if self.exhaustive or len(seq) <= k:
             return seq
-        return rng.sample(seq, k)
+        return self.rng.sample(seq, k)
 
-    def sig(op, tgt, flags):
-        if nleaves >= 3 and tgt != 0:
-            ctx.nontrivial((ref.canon(spec), rooted, op, tgt, flags))
+    def sig(self, op, tgt, flags):
+        if self.nleaves >= 3 and tgt != 0:
+            self.ctx.nontrivial((self.canon, self.rooted, op, tgt, flags))
 
+    def call(self, fn, *a, **k):
+        """the hooks report an exception of the operation; an exception they have NOT seen comes from the
+        harness or from library code outside the hooked call and must not be swallowed."""
+        self.mon.last_exc = None
+        try:
+            fn(*a, **k)
+        except Exception as e:
+            if self.mon.last_exc is not e:
+                raise
+            self.ctx.ev("driver:exception-reported-by-hook")
+
+    @staticmethod
     def at(tree, i):
         return list(tree.preorder_node_iter())[i]
-    flag3 = [(u, s, c) for u in bools for s in bools for c in bools]
-    for i, _ in pick(internal, 4):
-        for (u, s, c) in pick(flag3, 3):
-            t = fresh(spec, rooted)
-            try:
-                t.reseed_at(at(t, i), update_bipartitions=u, suppress_unifurcations=s, collapse_unrooted_basal_bifurcation=c)
-            except Exception:
-                pass
-            sig("reseed_at", i, (u, s, c))
-            t = fresh(spec, rooted)
-            try:
-                t.reroot_at_node(at(t, i), update_bipartitions=u, suppress_unifurcations=s, collapse_unrooted_basal_bifurcation=c)
-            except Exception:
-                pass
-            sig("reroot_at_node", i, (u, s, c))
-    for i, _ in pick(internal_edges, 4):
-        for (u, s) in pick([(u, s) for u in bools for s in bools], 2):
-            for mode in ("split", "free", "none"):
-                t = fresh(spec, rooted)
-                nd = at(t, i)
+
+    def split_lengths(self, ln, mode):
+        rng = self.rng
+        if mode == "split":
+            if isinstance(ln, int):
+                l1 = rng.randint(0, ln)
+            else:
+                l1 = ln * rng.choice([0.0, 0.25, 0.5, 0.75, 1.0])
+            return l1, ln - l1
+        if mode == "free":
+            return rng.choice([0, 1, 2.5]), rng.choice([0, 3, 0.125])
+        if mode == "one":
+            return rng.choice([(None, rng.choice([0, 2, 0.75])), (rng.choice([0, 1, 1.5]), None)])
+        return None, None
+
+    def run(self):
+        rng, bools = self.rng, (False, True)
+        t0 = self.fresh()
+        nodes = list(t0.preorder_node_iter())
+        internal = [i for i, nd in enumerate(nodes) if nd._child_nodes]
+        leaves = [i for i, nd in enumerate(nodes) if not nd._child_nodes and nd._parent_node is not None]
+        nonroot = [i for i, nd in enumerate(nodes) if nd._parent_node is not None]
+        internal_edges = [i for i in nonroot if nodes[i]._child_nodes]
+        terminal_edges = [i for i in nonroot if not nodes[i]._child_nodes]
+        prof = U.profile(self.spec)
+        midpoint_ok = (len(prof["leaves"]) >= 2 and not prof["missing"] and not prof["bare_tips"])
+        flag3 = [(u, s, c) for u in bools for s in bools for c in bools]
+        flag2 = [(u, s) for u in bools for s in bools]
+        mon = self.mon
+        # ---- re-seeding / re-rooting at internal nodes (the root included) and at leaves
+        mon.phase = "single"
+        for what, tgts, k, kf in (("internal", internal, 4, 3), ("leaf", leaves, 2, 2)):
+            for i in self.pick(tgts, k):
+                for (u, s, c) in self.pick(flag3, kf):
+                    for op in ("reseed_at", "reroot_at_node"):
+                        t = self.fresh()
+                        self.call(getattr(t, op), self.at(t, i), update_bipartitions=u, suppress_unifurcations=s,
+                                  collapse_unrooted_basal_bifurcation=c)
+                        self.sig(op, i, (u, s, c))
+        # ---- re-rooting at internal and terminal edges
+        modes = ("split", "free", "none", "one")
+        for tgts, k in ((internal_edges, 4), (terminal_edges, 2)):
+            for i in self.pick(tgts, k):
+                for (u, s) in self.pick(flag2, 2):
+                    for mode in (modes if self.exhaustive else ("split",) + tuple(rng.sample(modes[1:], 1))):
+                        t = self.fresh()
+                        nd = self.at(t, i)
+                        ln = nd.edge.length
+                        if mode == "split" and ln is None:
+                            mode = "none"
+                        l1, l2 = self.split_lengths(ln, mode)
+                        self.call(t.reroot_at_edge, nd.edge, length1=l1, length2=l2, update_bipartitions=u, suppress_unifurcations=s)
+                        self.sig("reroot_at_edge", i, (u, s, mode))
+        if midpoint_ok:
+            for (u, s, c) in self.pick(flag3, 4):
+                t = self.fresh()
+                self.call(t.reroot_at_midpoint, update_bipartitions=u, suppress_unifurcations=s, collapse_unrooted_basal_bifurcation=c)
+                self.sig("reroot_at_midpoint", -1, (u, s, c))
+        for i in self.pick(nonroot, 5):
+            for (u, s) in self.pick(flag2, 2):
+                t = self.fresh()
+                self.call(t.to_outgroup_position, self.at(t, i), update_bipartitions=u, suppress_unifurcations=s)
+                self.sig("to_outgroup_position", i, (u, s))
+        for k in range(3 if self.exhaustive else 2):
+            r = random.Random(rng.random())
+            t = self.fresh()
+            self.call(t.randomly_reorient, rng=r, update_bipartitions=bool(k % 2))
+            self.sig("randomly_reorient", k + 1, ())
+            t = self.fresh()
+            self.call(t.randomly_rotate, rng=r)
+            self.sig("randomly_rotate", k + 1, ())
+        for asc in bools:
+            t = self.fresh()
+            self.call(t.ladderize, ascending=asc)
+            self.sig("ladderize", 1, (asc,))
+            t = self.fresh()
+            self.call(t.reorder, ascending=asc)
+            self.sig("reorder", 1, (asc,))
+        t = self.fresh()
+        self.call(t.reorder, key=lambda nd: (len(nd._child_nodes), nd.edge.length or 0))
+        self.sig("reorder", 1, ("key",))
+        # ---- every operation once with nothing but its mandatory arguments; the random ones on the global RNG
+        mon.phase = "defaults"
+        self.defaults(internal, leaves, nonroot, midpoint_ok)
+        # ---- the legacy aliases
+        mon.phase = "legacy"
+        self.legacy()
+        # ---- one tree, several operations in a row (possibly encoded before)
+        mon.phase = "history"
+        self.history()
+        mon.phase = None
+
+    def defaults(self, internal, leaves, nonroot, midpoint_ok):
+        import dendropy.utility
+        rng = self.rng
+        i = rng.choice(internal) if internal else None
+        if i is not None:
+            t = self.fresh()
+            self.call(t.reseed_at, self.at(t, i))
+            t = self.fresh()
+            self.call(t.reroot_at_node, self.at(t, i))
+            self.sig("reseed_at/reroot_at_node:defaults", i, ())
+        if nonroot:
+            j = rng.choice(nonroot)
+            t = self.fresh()
+            self.call(t.reroot_at_edge, self.at(t, j).edge)
+            t = self.fresh()
+            nd = self.at(t, j)
+            ln = nd.edge.length
+            l1, l2 = self.split_lengths(ln, "split" if ln is not None else "free")
+            self.call(t.reroot_at_edge, nd.edge, l1, l2)
+            t = self.fresh()
+            self.call(t.to_outgroup_position, self.at(t, j))
+            self.sig("reroot_at_edge/to_outgroup_position:defaults", j, ())
+        if midpoint_ok:
+            t = self.fresh()
+            self.call(t.reroot_at_midpoint)
+        dendropy.utility.GLOBAL_RNG.seed(rng.random())
+        t = self.fresh()
+        self.call(t.randomly_reorient)
+        t = self.fresh()
+        self.call(t.randomly_rotate)
+        t = self.fresh()
+        self.call(t.ladderize)
+        t = self.fresh()
+        self.call(t.reorder)
+        self.sig("defaults", 1, ())
+
+    def legacy(self):
+        from dendropy.legacy import treemanip
+        rng = self.rng
+        with warnings.catch_warnings():
+            warnings.simplefilter("ignore")
+            r = random.Random(rng.random())
+            t = self.fresh()
+            self.call(treemanip.randomly_reorient_tree, t, rng=r, splits=rng.random() < 0.5)
+            t = self.fresh()
+            self.call(treemanip.randomly_rotate, t, rng=r)
+            if self.exhaustive:
+                import dendropy.utility
+                dendropy.utility.GLOBAL_RNG.seed(rng.random())
+                t = self.fresh()
+                self.call(treemanip.randomly_reorient_tree, t)
+        self.sig("legacy", 1, ())
+
+    def history(self):
+        rng = self.rng
+        t = self.fresh()
+        pre_encoded = rng.random() < 0.5
+        if pre_encoded:
+            t.encode_bipartitions(suppress_unifurcations=rng.random() < 0.5,
+                                  collapse_unrooted_basal_bifurcation=rng.random() < 0.5)
+        steps = []
+        for step in range(3):
+            nodes = list(t.preorder_node_iter())
+            internal = [nd for nd in nodes if nd._child_nodes]
+            nonroot = [nd for nd in nodes if nd._parent_node is not None]
+            ops = ["randomly_reorient", "randomly_rotate", "ladderize", "reorder"]
+            if internal:
+                ops += ["reseed_at", "reroot_at_node"] * 2
+            if nonroot:
+                ops += ["reroot_at_edge", "to_outgroup_position"] * 2
+            prof = U.profile(U.extract(t))
+            if len(prof["leaves"]) >= 2 and not prof["missing"] and not prof["bare_tips"] and prof["taxa"] == prof["leaves"]:
+                ops += ["reroot_at_midpoint"]
+            op = rng.choice(ops)
+            u, s, c = (rng.random() < 0.5 for _ in range(3))
+            steps.append(op)
+            if op in ("reseed_at", "reroot_at_node"):
+                self.call(getattr(t, op), rng.choice(internal), update_bipartitions=u, suppress_unifurcations=s,
+                          collapse_unrooted_basal_bifurcation=c)
+            elif op == "reroot_at_edge":
+                nd = rng.choice(nonroot)
                 ln = nd.edge.length
-                if mode == "split":
-                    if ln is None:
-                        continue
-                    if isinstance(ln, int):
-                        l1 = rng.randint(0, ln)
-                    else:
-                        l1 = ln * rng.choice([0.0, 0.25, 0.5, 0.75, 1.0])
-                    l2 = ln - l1
-                elif mode == "free":
-                    l1, l2 = rng.choice([0, 1, 2.5]), rng.choice([0, 3, 0.125])
-                else:
-                    l1 = l2 = None
-                try:
-                    t.reroot_at_edge(nd.edge, length1=l1, length2=l2, update_bipartitions=u, suppress_unifurcations=s)
-                except Exception:
-                    pass
-                sig("reroot_at_edge", i, (u, s, mode))
-    if nleaves >= 2 and all_lengths:
-        for (u, s, c) in pick(flag3, 4):
-            t = fresh(spec, rooted)
-            try:
-                t.reroot_at_midpoint(update_bipartitions=u, suppress_unifurcations=s, collapse_unrooted_basal_bifurcation=c)
-            except Exception:
-                pass
-            sig("reroot_at_midpoint", -1, (u, s, c))
-    for i, _ in pick(nonroot, 5):
-        for (u, s) in pick([(u, s) for u in bools for s in bools], 2):
-            t = fresh(spec, rooted)
-            try:
-                t.to_outgroup_position(at(t, i), update_bipartitions=u, suppress_unifurcations=s)
-            except Exception:
-                pass
-            sig("to_outgroup_position", i, (u, s))
-    for k in range(3 if exhaustive else 2):
-        t = fresh(spec, rooted)
-        r = random.Random(rng.random())
-        try:
-            t.randomly_reorient(rng=r, update_bipartitions=bool(k % 2))
-        except Exception:
-            pass
-        sig("randomly_reorient", k + 1, ())
-        t = fresh(spec, rooted)
-        try:
-            t.randomly_rotate(rng=r)
-        except Exception:
-            pass
-        sig("randomly_rotate", k + 1, ())
-    for asc in bools:
-        t = fresh(spec, rooted)
-        try:
-            t.ladderize(ascending=asc)
-        except Exception:
-            pass
-        sig("ladderize", 1, (asc,))
-        t = fresh(spec, rooted)
-        try:
-            t.reorder(ascending=asc)
-        except Exception:
-            pass
-        sig("reorder", 1, (asc,))
+                l1, l2 = self.split_lengths(ln, "split" if ln is not None else "none")
+                self.call(t.reroot_at_edge, nd.edge, length1=l1, length2=l2, update_bipartitions=u, suppress_unifurcations=s)
+            elif op == "to_outgroup_position":
+                self.call(t.to_outgroup_position, rng.choice(nonroot), update_bipartitions=u, suppress_unifurcations=s)
+            elif op == "reroot_at_midpoint":
+                self.call(t.reroot_at_midpoint, update_bipartitions=u, suppress_unifurcations=s, collapse_unrooted_basal_bifurcation=c)
+            elif op == "randomly_reorient":
+                self.call(t.randomly_reorient, rng=random.Random(rng.random()), update_bipartitions=u)
+            elif op == "randomly_rotate":
+                self.call(t.randomly_rotate, rng=random.Random(rng.random()))
+            else:
+                self.call(getattr(t, op), ascending=u)
+            if self.mon.last_exc is not None:
+                break
+        self.sig("history", 1, (pre_encoded,) + tuple(steps))
 
 
 def midpoint_on_node(spec):
@@ -428,9 +761,9 @@ def midpoint_on_node(spec):
     for (x, y), v in paths.items():
         if v[0] != dmax:
             continue
-        d = undirected_dists(spec, lv[x])
+        d = U.undirected_dists(spec, lv[x])
         for n in ref.preorder(spec):
-            if d[id(n)] * 2 == dmax and undirected_dists(spec, n)[id(lv[y])] * 2 == dmax:
+            if d[id(n)] * 2 == dmax and U.undirected_dists(spec, n)[id(lv[y])] * 2 == dmax:
                 return True
     return False
 
@@ -438,8 +771,10 @@ def midpoint_on_node(spec):
 def run_case(case, ctx):
     rng = random.Random("%s/%s" % (case["seed"], sorted((k, str(v)) for k, v in case.items())))
     with Hooks(ctx) as hooks:
-        Monitor(ctx).install(hooks)
+        mon = Monitor(ctx)
+        mon.install(hooks)
         kind = case["kind"]
+        label_of, extra = None, 0
         if kind == "directed":
             spec = gen.shape_to_spec(tuplify(case["shape"]))
             if isinstance(case["lengths"], list):
@@ -449,28 +784,33 @@ def run_case(case, ctx):
                         n[2] = next(it)
             else:
                 gen.decorate_lengths(spec, rng, case["lengths"])
-            if midpoint_on_node(spec):
-                ctx.ev("midpoint-on-node-cases")
-            run_ops_on(ctx, spec, case["rooted"], rng, True, case["name"])
-            ctx.sample({"kind": "directed", "tree": ref.to_newick(spec), "rooted": case["rooted"]})
+            spec[2] = case.get("root_length")
+            mon.exact = True
+            rooted, exhaustive = case["rooted"], True
         elif kind == "shape":
             spec = gen.shape_to_spec(gen.all_shapes(case["n"])[case["idx"]])
             if rng.random() < 0.25:
                 spec = gen.insert_unary(spec, rng, 0.3)
-            apply_pattern(spec, rng, case["pat"])
-            if midpoint_on_node(spec):
-                ctx.ev("midpoint-on-node-cases")
-            run_ops_on(ctx, spec, case["rooted"], rng, case["n"] <= 4, "shape")
-            if case["idx"] == 1 and case["pat"] == "ints":
-                ctx.sample({"kind": "shape", "tree": ref.to_newick(spec), "rooted": case["rooted"], "ops": "all 9 ops x all targets x flags"})
+            mon.exact = apply_pattern(spec, rng, case["pat"])
+            rooted, exhaustive = case["rooted"], case["n"] <= 4
         else:
             n = rng.choice([3, 5, 8, 12, 15]) if ctx.tier == "quick" else rng.choice([3, 6, 10, 20, 40, 60])
             spec = gen.random_spec(rng, n, p_poly=rng.choice([0, 0.3, 0.6]), p_unary=rng.choice([0, 0, 0.15]),
                                    shape=rng.choice([None, None, None, "caterpillar", "star", "balanced"]))
-            apply_pattern(spec, rng, rng.choice(PATTERNS))
-            rooted = rng.random() < 0.5
-            if n <= 15 and midpoint_on_node(spec):
-                ctx.ev("midpoint-on-node-cases")
-            run_ops_on(ctx, spec, rooted, rng, False, "random")
-            if case["i"] < 2:
-                ctx.sample({"kind": "random", "tree": ref.to_newick(spec), "rooted": rooted})
+            mon.exact = apply_pattern(spec, rng, rng.choice(PATTERNS))
+            rooted, exhaustive = rng.choice(ROOTINGS), False
+        if kind != "directed" and rng.random() < 0.3:
+            klass = rng.choice(LABEL_CLASSES)
+            spec, label_of, extra = label_class(spec, rng, klass)
+            ctx.ev("label-class:%s" % klass)
+        if (kind != "random" or len(ref.leaf_taxa(spec)) <= 15) and midpoint_on_node(spec):
+            ctx.ev("midpoint-on-node-cases")
+        Driver(ctx, mon, spec, rooted, rng, exhaustive, label_of, extra).run()
+        if kind == "directed":
+            ctx.sample({"kind": "directed", "name": case["name"], "tree": ref.to_newick(spec), "rooted": rooted})
+        elif kind == "shape":
+            if case["idx"] == 1 and case["pat"] == "ints":
+                ctx.sample({"kind": "shape", "tree": ref.to_newick(spec), "rooted": rooted,
+                            "ops": "all 9 ops x all targets x flags + defaults + legacy aliases + history"})
+        elif case["i"] < 2:
+            ctx.sample({"kind": "random", "tree": ref.to_newick(spec), "rooted": rooted})
